@@ -82,6 +82,13 @@ type Service struct {
 	handlers         []FailureHandler
 	runningPipelines *csync.Map[string, *runnablePipeline]
 
+	// publishMu serializes the writers of runningPipelines - the publication
+	// in runPipeline and the compare-and-delete of a departing run - so that
+	// deleteRunningPipelineIfCurrent is atomic with respect to a concurrent
+	// publication (csync.Map has no compare-and-swap). Same scheme as
+	// pkg/lifecycle (#2806). Never held across I/O.
+	publishMu sync.Mutex
+
 	// terminalErrors holds the terminal error of a pipeline after it has stopped
 	// and been removed from runningPipelines, so WaitPipeline can still report it
 	// to a caller that races the pipeline's own cleanup goroutine. Written before
@@ -1670,7 +1677,12 @@ func (s *Service) runPipeline(rp *runnablePipeline) error {
 		s.terminalErrors.Set(rp.pipeline.ID, err)
 
 		// confirmed that all nodes stopped, we can now remove the pipeline from the running pipelines
-		s.runningPipelines.Delete(rp.pipeline.ID)
+		// Remove the entry only if it is still THIS run. A graceful stop writes
+		// StatusUserStopped above, which admits a new Start; if that Start
+		// published its run before we get here, a delete by key would erase
+		// the new, live run and leave a pipeline that reports Running but that
+		// Stop, StopAndWait and WaitPipeline can no longer reach.
+		s.deleteRunningPipelineIfCurrent(rp.pipeline.ID, rp)
 
 		s.notify(rp.pipeline.ID, err)
 		return err
@@ -1714,7 +1726,9 @@ func (s *Service) runPipeline(rp *runnablePipeline) error {
 	//   - that cleanup goroutine blocks on startupDone (closed below), so it
 	//     can never Delete before this Set, which would strand a live run
 	//     outside the map.
+	s.publishMu.Lock()
 	s.runningPipelines.Set(rp.pipeline.ID, rp)
+	s.publishMu.Unlock()
 
 	// It's now safe to make the potentially slow UpdateStatus call and then
 	// release the cleanup goroutine to make its own. close(startupDone)
@@ -1739,6 +1753,19 @@ func (s *Service) runPipeline(rp *runnablePipeline) error {
 // position: no acked record is re-read as un-acked, and no un-acked record is
 // skipped. The restart re-reads and re-processes anything not yet durably acked
 // (at-least-once).
+// deleteRunningPipelineIfCurrent removes id's entry from runningPipelines only
+// if it still holds exactly rp - a compare-and-delete rather than a delete by
+// key, so a departing run can never erase the entry of a newer run that was
+// published under the same pipeline ID in the meantime.
+func (s *Service) deleteRunningPipelineIfCurrent(id string, rp *runnablePipeline) {
+	s.publishMu.Lock()
+	defer s.publishMu.Unlock()
+
+	if current, ok := s.runningPipelines.Get(id); ok && current == rp {
+		s.runningPipelines.Delete(id)
+	}
+}
+
 func (s *Service) recoverPipeline(ctx context.Context, rp *runnablePipeline) error {
 	s.logger.Trace(ctx).Str(log.PipelineIDField, rp.pipeline.ID).Msg("recovering pipeline")
 	if !s.metricsDisabled {
